@@ -6,6 +6,7 @@ parser by the harness on every run.
 import VaxisModel.Model.ParserIO
 import VaxisModel.Spec.VT500
 import VaxisModel.Props.C02Text
+import VaxisModel.Props.C02Refine
 
 namespace VaxisModel.Witness.F102
 open VaxisModel.Model.Parser VaxisModel.Model.ParserIO
@@ -55,5 +56,15 @@ theorem F102d_split_dependent : ¬ chunk_independent_full := by
 theorem F102d_oracle_not_respectful :
     ¬ VaxisModel.Model.ParserUtf8.Respects (fun p => if p = 0 then 2 else 1) 0
         (VaxisModel.Model.ParserUtf8.units [0xD8, 0x80, 0xFF]) := by decide
+
+
+open VaxisModel.Props.C02Refine in
+/-- The whole-stream refinement against the Spec proper, without exclusions, is false of the code:
+    `ESC ] ESC \` (F102). -/
+theorem F102_refinement_full_fails : ¬ model_refines_spec_full := by
+  intro h
+  have := h (fun _ => 1) [[0x1B, 0x5D, 0x1B, 0x5C]]
+  revert this
+  decide +kernel
 
 end VaxisModel.Witness.F102
